@@ -155,6 +155,12 @@ func (e *Exec) resolveCallee(f *frame, c *ssa.CallCommon) calleeInfo {
 
 func (e *Exec) resolveStatic(fn *ssa.Function, bindings []Val) calleeInfo {
 	name := funcKey(fn)
+	if fn.Name() == "init" && fn.Signature.Recv() == nil && fn.Signature.Params().Len() == 0 {
+		// initialisers of imported packages: they only touch their own package state
+		// (A-INIT); the initialiser of the package under verification is executed.
+		e.Assumptions["A-INIT: initialisers of imported packages do not touch this package's variables"] = true
+		return calleeInfo{kind: ckBuiltin, name: "noop", fn: fn}
+	}
 	if con := e.W.contractFor(fn); con != nil {
 		if con.Inline && fn.Blocks != nil {
 			return calleeInfo{kind: ckInline, fn: fn, con: con, bindings: bindings, name: name}
@@ -336,11 +342,23 @@ func (e *Exec) applyContract(f *frame, st *State, ci calleeInfo, args []Val, sig
 	old := st.clone()
 	// frame: havoc what the callee may modify
 	if !con.Pure {
+		// resolve every item in the pre-state first, then havoc
+		preEnv := *env
+		preEnv.St = old
+		type resolved struct {
+			ts  []modTarget
+			all bool
+		}
+		var rs []resolved
 		for _, m := range con.Modifies {
-			e.havocMod(f, st, env, m, ins)
+			ts, all := e.resolveMod(&preEnv, m)
+			rs = append(rs, resolved{ts, all})
 		}
 		if !con.Trusted || con.Flags["allocates"] || len(con.Modifies) > 0 {
 			e.bumpTop(st)
+		}
+		for _, r := range rs {
+			e.havocTargets(f, st, r.ts, r.all, ins)
 		}
 	}
 	// results
@@ -348,14 +366,7 @@ func (e *Exec) applyContract(f *frame, st *State, ci calleeInfo, args []Val, sig
 	for i := 0; i < sig.Results().Len(); i++ {
 		rets = append(rets, e.freshVal(st, f.prefix+"call."+sanitize(short)+fmt.Sprintf(".r%d", i), sig.Results().At(i).Type()))
 	}
-	if con.Flags["allocates"] {
-		e.bumpTop(st)
-		for _, r := range rets {
-			if inv := e.typeInv(st, r); inv != "true" {
-				e.S.assume(inv)
-			}
-		}
-	}
+
 	env2 := *env
 	env2.St = st
 	env2.Old = old
@@ -445,6 +456,17 @@ func (e *Exec) resolveMod(env *Env, m ModItem) (targets []modTarget, everything 
 			env.fail("modifies %s: not a pointer", m.Src)
 		}
 		return e.structTargets(v.T, pt.Elem(), false), false
+	case "cell":
+		v := env.elab(m.X)
+		pt, ok := v.Ty.Go.Underlying().(*types.Pointer)
+		if !ok {
+			env.fail("modifies %s: not a pointer", m.Src)
+		}
+		a := e.cellAddr(v.T, pt.Elem())
+		if a.Heap == "" {
+			return e.structTargets(v.T, pt.Elem(), false), false
+		}
+		return []modTarget{{a.Heap, a.Obj}}, false
 	case "map":
 		v := env.elab(m.X)
 		mt, ok := v.Ty.Go.Underlying().(*types.Map)
@@ -453,7 +475,7 @@ func (e *Exec) resolveMod(env *Env, m ModItem) (targets []modTarget, everything 
 		}
 		kty, vty := tyOfGo(mt.Key()), tyOfGo(mt.Elem())
 		e.ensureSortDecl(vty)
-		pn, vn := mapPHeapName(kty.Sort(), vty.Sort()), mapVHeapName(kty.Sort(), vty.Sort())
+		pn, vn := mapPHeapName(kty, vty), mapVHeapName(kty, vty)
 		e.regHeap(pn, "(Array Int (Array "+kty.Sort()+" Bool))")
 		e.regHeap(vn, "(Array Int (Array "+kty.Sort()+" "+vty.Sort()+"))")
 		e.regHeap(mapLHeapName(), "(Array Int Int)")
@@ -495,8 +517,7 @@ func (e *Exec) structTargets(ref string, t types.Type, anyObj bool) []modTarget 
 	return out
 }
 
-func (e *Exec) havocMod(f *frame, st *State, env *Env, m ModItem, ins ssa.Instruction) {
-	targets, everything := e.resolveMod(env, m)
+func (e *Exec) havocTargets(f *frame, st *State, targets []modTarget, everything bool, ins ssa.Instruction) {
 	if everything {
 		e.frameCheckAll(f, st, ins)
 		e.havocAll(st, nil)
@@ -651,11 +672,11 @@ func (e *Exec) unmodelled(f *frame, st *State, ci calleeInfo, c *ssa.CallCommon,
 			hs = append(hs, h)
 		}
 		sort.Strings(hs)
+		e.bumpTop(st)
 		for _, h := range hs {
 			e.frameCheckTarget(f, st, modTarget{h, ""}, ins)
 			e.havoc(st, h)
 		}
-		e.bumpTop(st)
 	}
 	var rets []Val
 	for i := 0; i < sig.Results().Len(); i++ {
@@ -718,7 +739,7 @@ func (e *Exec) typeReach(t types.Type, heaps map[string]bool, seen map[string]bo
 	case *types.Slice:
 		if !isStructValType(u.Elem()) {
 			ety := tyOfGo(u.Elem())
-			name := elemHeapName(ety.Sort())
+			name := elemHeapName(ety)
 			e.regHeap(name, "(Array Int (Array Int "+ety.Sort()+"))")
 			e.ensureSortDecl(ety)
 			heaps[name] = true
@@ -729,7 +750,7 @@ func (e *Exec) typeReach(t types.Type, heaps map[string]bool, seen map[string]bo
 	case *types.Map:
 		kty, vty := tyOfGo(u.Key()), tyOfGo(u.Elem())
 		e.ensureSortDecl(vty)
-		pn, vn := mapPHeapName(kty.Sort(), vty.Sort()), mapVHeapName(kty.Sort(), vty.Sort())
+		pn, vn := mapPHeapName(kty, vty), mapVHeapName(kty, vty)
 		e.regHeap(pn, "(Array Int (Array "+kty.Sort()+" Bool))")
 		e.regHeap(vn, "(Array Int (Array "+kty.Sort()+" "+vty.Sort()+"))")
 		e.regHeap(mapLHeapName(), "(Array Int Int)")
@@ -781,7 +802,7 @@ func (e *Exec) builtin(f *frame, st *State, name string, c *ssa.CallCommon, args
 		e.frameCheckMap(f, st, m.T, ins)
 		e.mapDelete(st, m.T, k.T, mt)
 		return Val{}
-	case "print", "println":
+	case "print", "println", "noop":
 		return Val{}
 	case "recover":
 		return Val{T: "(mk-iface 0 0)", Ty: tyIface}
@@ -831,7 +852,7 @@ func (e *Exec) builtinAppend(f *frame, st *State, c *ssa.CallCommon, args []Val,
 		e.abstracted(f, "append of struct/string elements")
 		return res
 	}
-	name := elemHeapName(ety.Sort())
+	name := elemHeapName(ety)
 	e.regHeap(name, "(Array Int (Array Int "+ety.Sort()+"))")
 	e.ensureSortDecl(ety)
 	E := e.get(st, name)
@@ -911,14 +932,14 @@ func (e *Exec) pointerHeaps(p ssa.Value, set map[string]bool) {
 		switch t := d.X.Type().Underlying().(type) {
 		case *types.Slice:
 			if !isStructValType(t.Elem()) {
-				set[elemHeapName(tyOfGo(t.Elem()).Sort())] = true
-				e.regHeap(elemHeapName(tyOfGo(t.Elem()).Sort()), "(Array Int (Array Int "+tyOfGo(t.Elem()).Sort()+"))")
+				set[elemHeapName(tyOfGo(t.Elem()))] = true
+				e.regHeap(elemHeapName(tyOfGo(t.Elem())), "(Array Int (Array Int "+tyOfGo(t.Elem()).Sort()+"))")
 			}
 		case *types.Pointer:
 			arr := t.Elem().Underlying().(*types.Array)
 			if !isStructValType(arr.Elem()) {
-				set[elemHeapName(tyOfGo(arr.Elem()).Sort())] = true
-				e.regHeap(elemHeapName(tyOfGo(arr.Elem()).Sort()), "(Array Int (Array Int "+tyOfGo(arr.Elem()).Sort()+"))")
+				set[elemHeapName(tyOfGo(arr.Elem()))] = true
+				e.regHeap(elemHeapName(tyOfGo(arr.Elem())), "(Array Int (Array Int "+tyOfGo(arr.Elem()).Sort()+"))")
 			}
 		}
 		return
@@ -952,7 +973,7 @@ func (e *Exec) callWrites(f *frame, c *ssa.CallCommon, set map[string]bool, dept
 			}
 		case "append", "copy":
 			if sl, ok := c.Args[0].Type().Underlying().(*types.Slice); ok && !isStructValType(sl.Elem()) {
-				n := elemHeapName(tyOfGo(sl.Elem()).Sort())
+				n := elemHeapName(tyOfGo(sl.Elem()))
 				e.regHeap(n, "(Array Int (Array Int "+tyOfGo(sl.Elem()).Sort()+"))")
 				set[n] = true
 			}
